@@ -12,7 +12,7 @@ EXPLANATION = ("static analysis (MIR abstract interpretation): premises of the c
                "received and pay exactly what is recorded; a claim adds to claimed_amount what it pays; closing refunds budget minus "
                "claimed to the stored owner and removes the farm; farm funding is behind the funds-exactness guards")
 ASSUMPTIONS = ["the induction over messages and n*floor(x/n) <= x stay on paper", "multiplicity of penalty recipients (unique owners vs farms) is a numeric fact not decided"]
-TECHNIQUE = "static analysis: effect-ownership table (who sends what to whom), same-value provenance at both ends of each transfer"
+TECHNIQUE = "static analysis: effect-ownership table (who sends what to whom), same-value provenance at both ends of each transfer, budget-guard operand provenance shared with C06"
 LEVEL_TEXT = "Structural premises of the custody argument, exhaustive over message variants and CFG paths; the inequality itself is not computed."
 LEVEL_NOTE = "Not decided: the balance >= ledger inequality as a number; rounding slack of the penalty split."
 FM = "farm_manager"
